@@ -217,7 +217,7 @@ def oracle(line, impl, model, ref=None):
         if wire.canon(wire.parse_all(impl[3:])[0]) != wire.canon(wire.parse_all(ref[3:])[0]):
             return "get returned a value other than the addressed one"
         return None
-    if op == "flatten" or op == "flatrt":
+    if op in ("flatten", "flatrt", "unflat"):
         return None
     # mutators
     create = t[3] == "1"
@@ -240,38 +240,138 @@ def oracle(line, impl, model, ref=None):
     return None
 
 
+# ---------------------------------------------------------------------------------------------------------------------
+# flatten / unflatten.  What doc/ref/jsonpointer/flatten.md + unflatten_options.md promise:
+#   flatten: keys are JSON Pointers; values are primitives, `{}` or `[]` (since 0.160.0).
+#   unflatten: "There is no unique solution, an integer appearing in a path could be an array index or it could be an object
+#   key.  The default is to attempt to preserve arrays"; assume_object: "Assume an integer appearing in a path is an object key".
+# Demanded of the real output, independently of the model:
+#   unflatten(flatten(d), none)          == d with every object whose member names are exactly the RFC 6901 array indices
+#                                           "0".."n-1" (n >= 1, no leading zeros) replaced by the array of its values (the
+#                                           documented ambiguity, second example of flatten.md) -- and nothing else changed:
+#                                           empty containers, scalar roots, "-", "01", gaps, >= 11 elements all survive;
+#   unflatten(flatten(d), assume_object) == d with every non-empty array replaced by the object {"0":..,"n-1":..};
+#   member order is not promised (ojson comes back in pointer order): compared up to member order.
+#   unflatten(f) for a flat object f of valid, pairwise prefix-free pointers: every pointer of f resolves in the result
+#   (RFC 6901 evaluation, done here) to the value it was paired with, and the result has no further leaves;
+#   a member name that is not a JSON Pointer, a non-object or an empty object: jsonpointer_error.
+# ---------------------------------------------------------------------------------------------------------------------
+
+def is_index(k):
+    """RFC 6901 array-index: "0" or digits without a leading zero"""
+    return k == b"0" or (k.isdigit() and k[:1] != b"0")
+
+
+def promised_roundtrip(d, assume_object):
+    if isinstance(d, list):
+        xs = [promised_roundtrip(x, assume_object) for x in d]
+        if xs and assume_object:
+            return Obj([(str(i).encode(), x) for i, x in enumerate(xs)])
+        return xs
+    if isinstance(d, Obj):
+        ms = [(k, promised_roundtrip(x, assume_object)) for k, x in d.members]
+        if ms and not assume_object:
+            want = [str(i).encode() for i in range(len(ms))]
+            if sorted(k for k, _ in ms) == sorted(want):
+                by = dict(ms)
+                return [by[k] for k in want]
+        return Obj(ms)
+    return d
+
+
+def py_get(v, toks):
+    for t in toks:
+        if isinstance(v, list):
+            if not is_index(t) or int(t) >= len(v):
+                return KeyError
+            v = v[int(t)]
+        elif isinstance(v, Obj):
+            v = v.get(t)
+            if v is KeyError:
+                return KeyError
+        else:
+            return KeyError
+    return v
+
+
+def count_leaves(v):
+    if isinstance(v, list) and v:
+        return sum(count_leaves(x) for x in v)
+    if isinstance(v, Obj) and v.members:
+        return sum(count_leaves(x) for _, x in v.members)
+    return 1
+
+
+def is_prefix(a, b):
+    return len(a) <= len(b) and b[:len(a)] == a
+
+
 def flat_oracle(line, impl, model, ref=None):
     t = line.split()
-    if t[1] != "flatrt":
+    if t[1] == "flatrt":
+        assume = t[3] == "1"
+        d, _ = wire.parse(t, 4)
+        if not impl.startswith("ok "):
+            return "unflatten(flatten(d)) failed: " + impl
+        got = wire.parse_all(impl[3:])[0]
+        want = promised_roundtrip(d, assume)
+        if wire.canon(got) != wire.canon(want):
+            if wire.canon(want) == wire.canon(d):
+                return "unflatten(flatten(d)) != d for a document outside the documented ambiguity (option %s)" % t[3]
+            return "unflatten(flatten(d)) is not d with index-named objects as arrays / arrays as objects (option %s)" % t[3]
         return None
-    d, _ = wire.parse(t, 3)
-    if index_like_keys(d) or not isinstance(d, (Obj, list)) or is_empty(d):
+    if t[1] == "unflat":
+        f, _ = wire.parse(t, 4)
+        if not isinstance(f, Obj) or not f.members:
+            return None if impl == "err" else "unflatten accepted an argument that is not a non-empty object"
+        ptrs = [(py_tokens(k), v) for k, v in f.members]
+        if any(p is None for p, _ in ptrs):
+            return None if impl == "err" else "unflatten accepted a member name that is not a JSON Pointer"
+        if not impl.startswith("ok "):
+            return "unflatten failed on a flat object of valid pointers: " + impl
+        if any(i != j and is_prefix(p, q) for i, (p, _) in enumerate(ptrs) for j, (q, _) in enumerate(ptrs)):
+            return None                     # conflicting paths: nothing promised, tie only
+        got = wire.parse_all(impl[3:])[0]
+        for p, v in ptrs:
+            r = py_get(got, p)
+            if r is KeyError or wire.canon(r) != wire.canon(v):
+                return "a pointer of the flat object does not address its value in unflatten's result"
+        if sum(count_leaves(v) for _, v in ptrs) != count_leaves(got):
+            return "unflatten's result has leaves the flat object does not mention"
         return None
-    if not impl.startswith("ok "):
-        return "unflatten(flatten(d)) failed: " + impl
-    got = wire.parse_all(impl[3:])[0]
-    if wire.canon(got) != wire.canon(d):
-        return "unflatten(flatten(d)) != d for a document without index-like member names"
     return None
 
 
-def is_empty(d):
-    return (isinstance(d, list) and not d) or (isinstance(d, Obj) and not d.members)
+# D87 (fixed in /repo 52dff66): try_unflatten_array read tokens with raw dec_to_integer, so "00", "01" were array indices and
+# {"0":1,"00":2} came back as [1].  The matcher below is inert (no finding carries this id); kept as the description of the class.
+UNFLATTEN_LEADING_ZERO_ID = "D87-unused"
 
 
-def index_like_keys(v):
+def _has_leading_zero_name(v, flat):
     if isinstance(v, list):
-        return any(index_like_keys(x) for x in v)
+        return any(_has_leading_zero_name(x, False) for x in v)
     if isinstance(v, Obj):
-        return any((k.isdigit() or k == b"-") or index_like_keys(x) for k, x in v.members)
+        for k, x in v.members:
+            toks = (py_tokens(k) or []) if flat else [k]
+            if any(t.isdigit() and not is_index(t) for t in toks) or _has_leading_zero_name(x, False):
+                return True
     return False
+
+
+@vlib.known_matcher(UNFLATTEN_LEADING_ZERO_ID)
+def unflatten_leading_zero(stream, line, impl, model):
+    t = line.split()
+    if len(t) < 5 or t[1] not in ("flatrt", "unflat") or t[3] != "0" or impl != model:
+        return False
+    d, _ = wire.parse(t, 4)
+    return _has_leading_zero_name(d, t[1] == "unflat")
 
 
 def nontrivial(line, impl):
     t = line.split()
     if t[1] in ("parse", "tostr"):
         return hashlib.md5(line.encode()).hexdigest() if len(line) > 14 else None
-    if t[1] in ("flatten", "flatrt"):
+    if t[1] in ("flatten", "flatrt", "unflat"):
         return hashlib.md5(line.encode()).hexdigest()
     loc = t[3] if t[1] in ("get", "contains") else t[4]
     if loc.count("2f") >= 2:
@@ -294,14 +394,124 @@ def rfc_lines():
     return ["ptr get j x%s %s" % (p.hex(), d) for p in ptrs]
 
 
+FLAT_KEYS = [b"a", b"b", b"c", b"a/b", b"~", b"~1", b"", b"\xc3\xa9", b"x1", b"0", b"1", b"2", b"3", b"10", b"00", b"01", b"-", b"/"]
+
+
+def index_named(rng, n, depth, kind):
+    """an object whose member names look like array indices: exactly 0..n-1, or with a gap / a leading zero / '-' / a non-index"""
+    names = [str(i).encode() for i in range(n)]
+    r = rng.random()
+    if r < 0.45 or n == 0:
+        pass
+    elif r < 0.6:
+        names[rng.randrange(n)] = str(n + rng.randint(0, 2)).encode()                       # gap (or still exact when n)
+    elif r < 0.75:
+        i = rng.randrange(n)
+        names[i] = b"0" * rng.randint(1, 2) + names[i]                                        # leading zero
+    elif r < 0.85:
+        names.append(rng.choice([b"-", b"a", b"", b"1e0", b"+1", b"18446744073709551616"]))
+    else:
+        names.append(b"0" + names[rng.randrange(n)])                                          # "0" and "00": same number twice
+    if kind == "o":
+        rng.shuffle(names)
+    return Obj([(k, flat_doc(rng, depth - 1, kind)) for k in dict.fromkeys(names)])
+
+
+def flat_doc(rng, depth, kind):
+    r = rng.random()
+    if depth <= 0 or r < 0.22:
+        q = rng.random()
+        if q < 0.18:
+            return []
+        if q < 0.36:
+            return Obj([])
+        return values.leaf(rng, True)
+    if r < 0.5:
+        n = rng.choice([0, 1, 1, 2, 2, 3, 3, 4, 11, 12]) if depth >= 2 else rng.randint(0, 3)
+        return [flat_doc(rng, depth - 1 if n < 10 else 0, kind) for _ in range(n)]
+    if r < 0.72:
+        return index_named(rng, rng.choice([1, 1, 2, 2, 3, 11]), depth, kind)
+    ks = rng.sample(FLAT_KEYS, rng.randint(0, 4))
+    return Obj([(k, flat_doc(rng, depth - 1, kind)) for k in ks])
+
+
+FLAT_TOKENS = [b"a", b"b", b"a!", b"a/b", b"~", b"", b"0", b"1", b"2", b"10", b"00", b"01", b"-", b"\xc3\xa9"]
+
+
+def flat_object(rng):
+    """an arbitrary flat object: pointer -> value, with conflicting paths, index-like tokens, now and then a malformed name"""
+    paths = []
+    for _ in range(rng.randint(1, 6)):
+        r = rng.random()
+        if paths and r < 0.35:
+            base = list(rng.choice(paths))
+            q = rng.random()
+            if q < 0.4 and base:
+                base[-1] = rng.choice(FLAT_TOKENS)                      # sibling
+            elif q < 0.75:
+                base.append(rng.choice(FLAT_TOKENS))                    # extends an existing path: conflict
+            elif base:
+                base.pop()                                              # prefix of an existing path: conflict
+            paths.append(tuple(base))
+        else:
+            paths.append(tuple(rng.choice(FLAT_TOKENS) for _ in range(rng.randint(0, 4))))
+    ms = []
+    for p in dict.fromkeys(paths):
+        name = b"".join(b"/" + esc(t) for t in p)
+        r = rng.random()
+        if r < 0.03:
+            name = name[1:] if name else b"a"
+        elif r < 0.05:
+            name += rng.choice([b"~", b"~2"])
+        q = rng.random()
+        v = [] if q < 0.1 else Obj([]) if q < 0.2 else values.value(rng, 2, values.KEYS_SMALL, True) if q < 0.3 else values.leaf(rng, True)
+        ms.append((name, v))
+    return Obj(ms)
+
+
 def gen_flat(rng, n):
     ls = []
-    for _ in range(n):
-        d = values.value(rng, rng.randint(1, 4), [b"a", b"b", b"c", b"a/b", b"~", b"", b"\xc3\xa9", b"x1"], False, width=3, p_leaf=0.25)
+    for i in range(n):
         kind = "j" if rng.random() < 0.6 else "o"
+        opt = "0" if rng.random() < 0.6 else "1"
+        r = rng.random()
+        if r < 0.2:
+            d = values.value(rng, rng.randint(1, 4), [b"a", b"b", b"c", b"a/b", b"~", b"", b"\xc3\xa9", b"x1"], False, width=3, p_leaf=0.25)
+        elif r < 0.6:
+            d = flat_doc(rng, rng.randint(1, 4), kind)
+        else:
+            d = flat_object(rng)
+            if rng.random() < 0.03:
+                d = rng.choice([Obj([]), [], 1, [1, 2]])
         if kind == "j":
             d = wire.sort_keys(d)
-        ls.append("ptr %s %s %s" % ("flatrt" if rng.random() < 0.5 else "flatten", kind, wire.render(d)))
+        if r >= 0.6:
+            ls.append("ptr unflat %s %s %s" % (kind, opt, wire.render(d)))
+        elif rng.random() < 0.2:
+            ls.append("ptr flatten %s %s" % (kind, wire.render(d)))
+        else:
+            ls.append("ptr flatrt %s %s %s" % (kind, opt, wire.render(d)))
+    return ls
+
+
+def flat_fixed():
+    """hand-picked flatten/unflatten cases (every ambiguity class once, both flavours, both options)"""
+    docs = [5, None, [], Obj([]), [[]], [Obj([])], Obj([(b"a", [])]), Obj([(b"a", Obj([]))]), [[], [[]], Obj([])],
+            Obj([(b"0", 1), (b"1", 2)]), Obj([(b"1", 1), (b"0", 2)]), Obj([(b"0", 1), (b"2", 2)]), Obj([(b"-", 1)]), Obj([(b"01", 1)]),
+            Obj([(b"1", 1)]), Obj([(b"0", Obj([(b"0", Obj([(b"0", 7)]))]))]), list(range(12)), Obj([(str(i).encode(), i) for i in range(12)]),
+            Obj([(b"a/b", [1, Obj([(b"~", 2)])]), (b"", 3)]), Obj([(b"", Obj([(b"", 1)]))]), [[1, 2], [3]],
+            Obj([(b"a", Obj([(b"0", b"x")]))]), Obj([(b"18446744073709551616", 1)]), Obj([(b"0", 1), (b"a", 2)])]
+    flats = [Obj([(b"/a", 1), (b"/a/b", 2)]), Obj([(b"", 1), (b"/a", 2)]), Obj([(b"", 1)]), Obj([(b"a", 1)]), Obj([(b"/a~2", 1)]),
+             Obj([(b"/1", 1), (b"/0", 2)]), Obj([(b"/0/a", 1), (b"/0", 2)]), Obj([(b"/a/b", 2), (b"/a", 1), (b"/a/c", 3)]),
+             Obj([(b"/0", Obj([(b"x", [1])])), (b"/1/0", 2)]), Obj([(b"/a/0", 1), (b"/a/1", 1), (b"/a/x", 1)]),
+             Obj([(b"/a/b", 1), (b"/a!", 2), (b"/a/c", 3)]), Obj([(b"/0", 1), (b"/00", 2)]), Obj([]), [], 3]
+    ls = []
+    for kind in "jo":
+        for opt in "01":
+            for d in docs:
+                ls.append("ptr flatrt %s %s %s" % (kind, opt, wire.render(wire.sort_keys(d) if kind == "j" else d)))
+            for d in flats:
+                ls.append("ptr unflat %s %s %s" % (kind, opt, wire.render(wire.sort_keys(d) if kind == "j" else d)))
     return ls
 
 
@@ -320,10 +530,8 @@ def streams(ctx, rng, scale):
     ctx.correspond("ops-random", "ptr", lo, oracle, nontrivial, ref_lines=with_ref(lo))
     li = gen_index_lines(rng)
     ctx.correspond("index-syntax", "ptr", li, oracle, nontrivial, ref_lines=with_ref(li))
-    lf = gen_flat(rng, 800 * scale)
-    flat_model = [l if l.split()[1] == "flatten" else "" for l in lf]
-    ctx.correspond("flatten", "ptr", lf, flat_oracle, nontrivial,
-                   compare=lambda line, io, mo: True if line.split()[1] == "flatrt" else io == mo, model_lines=flat_model)
+    lf = flat_fixed() + gen_flat(rng, 2500 * scale)
+    ctx.correspond("flatten", "ptr", lf, flat_oracle, nontrivial)
 
 
 def run(ctx):
@@ -331,7 +539,10 @@ def run(ctx):
     ctx.cov["rule"] = ("pointer text: random strings over {/ ~ 0 1 2 a é - ~0 ~1 …} and token lists (thorough: every string of length <= 6 over "
                        "{/,~,0,1,a}); operations: (document, pointer, value) with pointers drawn from the document's own locations and perturbed "
                        "(special tokens: '-', leading zeros, signs, blanks, 2^64 boundaries, 21+ digits, empty, escapes, malformed syntax), "
-                       "get/contains/add/add_if_absent/replace/remove x json/ojson x create_if_missing; flatten and unflatten(flatten(d)). "
+                       "get/contains/add/add_if_absent/replace/remove x json/ojson x create_if_missing; flatten; unflatten(flatten(d)) for both "
+                       "unflatten_options on documents with empty containers at every position, arrays of 11-12 elements, objects named "
+                       "0..n-1 / with a gap / a leading zero / '-' / the same number twice, member names with '/' and '~'; unflatten of "
+                       "arbitrary flat objects (conflicting paths, index-like tokens, malformed names, non-objects), all tied to the model. "
                        "non-trivial = pointer with >= 2 tokens (ops) / text longer than 1 char; distinct by op line")
     rng = vlib.rng_for(ctx.seed, "c14")
     scale = 1 if ctx.tier == "quick" else 15
@@ -358,7 +569,7 @@ def replay(ctx, path):
         print(open(path).read())
         return 1
     ctx.correspond("replay", "ptr", lines, lambda l, i, m, r=None: flat_oracle(l, i, m, r) or oracle(l, i, m, r), nontrivial,
-                   ref_lines=with_ref(lines), compare=lambda line, io, mo: True if line.split()[1] == "flatrt" else io == mo)
+                   ref_lines=with_ref(lines))
     for (stream, line, io, mo, why) in ctx.fail_inputs:
         print("op: %s\nimpl: %s\nmodel: %s\nwhy: %s" % (line, io, mo, why))
     for b in ctx.broken:
